@@ -293,6 +293,21 @@ func checkC14(p *Program, r *Report) {
 		checkCausal(p, r, m.Kernel, m.RelPkg+"."+m.Kernel.Name(), series, 0)
 	}
 	r.Floor("R14.4", "kernels", nK, 20)
+
+	// ---- R14.5: nothing survives in the arguments either: Run does not modify its inputs (values or shape)
+	r.Rule("R14.5", "no information survives in the arguments: Run never writes its inputs array, neither elements nor the shape vector handed out by Shape() (effect summaries, R04.1)")
+	eff := nil2eff(p)
+	for _, m := range models {
+		if m.Run == nil || !m.Vector {
+			continue
+		}
+		key := m.RelPkg + "." + m.Name
+		if mw := eff.Mutates(m.Run, 1); mw != nil {
+			r.Fail("R14.5", key+":inputs", p.Pos(mw.site.Pos()), fmt.Sprintf("Run may write its inputs argument (%s): a later run given the same array sees different inputs although the caller changed nothing", mw.what))
+		} else {
+			r.OK("R14.5", key+": inputs argument never written")
+		}
+	}
 }
 
 func InModuleGlobal(g *ssa.Global) bool {
@@ -470,4 +485,38 @@ func checkCausal(p *Program, r *Report, fn *ssa.Function, key string, series map
 
 func isNDMethod(f *ssa.Function) bool {
 	return f.Signature.Recv() != nil && isNDType(f.Signature.Recv().Type())
+}
+
+// globalWritesFrom: package-level variables written by module functions reachable from the given roots.
+type globalWrite struct {
+	fn   *ssa.Function
+	g    *ssa.Global
+	site ssa.Instruction
+}
+
+func globalWritesFrom(p *Program, roots []*ssa.Function) []globalWrite {
+	var out []globalWrite
+	reach := moduleReach(p, roots)
+	var fns []*ssa.Function
+	for fn := range reach {
+		if InModule(fn) && fn.Blocks != nil && !isInitFunc(fn) {
+			fns = append(fns, fn)
+		}
+	}
+	sortFuncs(fns)
+	for _, fn := range fns {
+		eachInstr(fn, func(_ *ssa.BasicBlock, _ int, ins ssa.Instruction) {
+			switch x := ins.(type) {
+			case *ssa.Store:
+				if g := globalOf(x.Addr); g != nil {
+					out = append(out, globalWrite{fn, g, ins})
+				}
+			case *ssa.MapUpdate:
+				if g := globalOf(x.Map); g != nil {
+					out = append(out, globalWrite{fn, g, ins})
+				}
+			}
+		})
+	}
+	return out
 }
